@@ -177,6 +177,7 @@ def hookEnv : HEnv
     | .tuple [] => .raise "IndexError".toList
     | .str (c :: _) => .ok (.str [c])
     | .str [] => .raise "IndexError".toList
+    | .enum _ _ => .unmodelled "hook on a raw Enum member".toList
     | .dict _ ps => match lookupKey (.int 0) ps with
       | some x => .ok x
       | none => .raise "KeyError".toList
@@ -200,17 +201,17 @@ def opSerDecode (c : Json) : R Json := do
   let raw ← serParseVal (← obj c "raw")
   return serOutJson false (decode hookEnv t raw)
 
-def routeTr : List (String × Tr) :=
-  [("dict", .id), ("json", .json), ("yaml", .yaml), ("f.json", .json), ("f.yaml", .yaml), ("f.yml", .yaml), ("f.pkl", .id)]
+/-- the in-memory routes and their transports; the four file routes go through the model's own suffix table (`saveLoad`) -/
+def routeTr : List (String × Tr) := [("dict", .id), ("json", .json), ("yaml", .yaml)]
+def fileRoutes : List String := [".json", ".yaml", ".yml", ".pkl"]
 
 /-- op `ser.route`: {ty, x} ↦ {route: outcome} for the seven real routes -/
 def opSerRoute (c : Json) : R Json := do
   let t ← serParseTy (← obj c "ty")
   let x ← serParseVal (← obj c "x")
-  let rid := serOutJson true (roundTrip hookEnv .id t x)
-  let rjs := serOutJson true (roundTrip hookEnv .json t x)
-  let rya := serOutJson true (roundTrip hookEnv .yaml t x)
-  return Json.mkObj (routeTr.map fun (name, tr) => (name, match tr with | .id => rid | .json => rjs | .yaml => rya))
+  let mem := routeTr.map fun (name, tr) => (name, serOutJson true (roundTrip hookEnv tr t x))
+  let files := fileRoutes.map fun ext => ("f" ++ ext, serOutJson true (saveLoad hookEnv (chars ext) t x))
+  return Json.mkObj (mem ++ files)
 
 def serialOps : List (String × (Json → R Json)) :=
   [("ser.encode", opSerEncode), ("ser.todict", opSerToDict), ("ser.decode", opSerDecode), ("ser.route", opSerRoute)]
